@@ -167,6 +167,9 @@ def run(chk):
     for r in vlib.read_ndjson(out):
         nb += 1
         chk.evals()
+        if r.get("timeout") and not lang.cheap(r["text"]):
+            chk.skipped()       # slow exact arithmetic on huge numbers, not a hang (lang.cheap)
+            continue
         crashed = r["exit"] not in (0, 1) or any("panicked" in l for l in r["stderr"])
         if crashed:
             chk.violation("binary on %r: exit %s %s" % (r["text"], r["exit"], r["stderr"][:1]),
